@@ -1482,13 +1482,24 @@ impl<'s, P: Pay + Send + Sync> W<'s, P> {
         let hj = &self.slots[j].as_ref().unwrap().h;
         use std::hash::{Hash, Hasher};
         let mut done = "none";
+        let mut probe_seen: Option<(usize, usize)> = None;
         match (hi, hj) {
             (H::Arc(x), H::Arc(y)) => {
+                // the count as seen from *inside* the payload's eq / cmp / hash / fmt callbacks
+                let pd = ProbeData::<P> {
+                    arc: x as *const Arc<P>,
+                    seen_min: std::cell::Cell::new(usize::MAX),
+                    seen_max: std::cell::Cell::new(0),
+                };
+                tk::set_probe(Some((probe_count::<P>, &pd as *const ProbeData<P> as *const ())));
                 let eq = x == y;
                 let ne = x != y;
                 let ord = x.cmp(y);
                 let mut h1 = std::collections::hash_map::DefaultHasher::new();
                 x.hash(&mut h1);
+                let _ = format!("{:?}", x);
+                tk::set_probe(None);
+                probe_seen = Some((pd.seen_min.get(), pd.seen_max.get()));
                 let mut h2 = std::collections::hash_map::DefaultHasher::new();
                 (**x).hash(&mut h2);
                 let dbg = format!("{:?}", x);
@@ -1590,6 +1601,21 @@ impl<'s, P: Pay + Send + Sync> W<'s, P> {
             _ => {}
         }
         self.st.counts.bump(&format!("op.compare:{}", done));
+        if let Some((lo, hi)) = probe_seen {
+            if hi != 0 {
+                let a = self.slots[i].as_ref().unwrap().a;
+                let owners = self.owners(a);
+                self.st.counts.bump("count_obs.inside-eq-cmp-hash-fmt");
+                if lo != owners || hi != owners {
+                    soft_push(
+                        &mut self.soft,
+                        "C04",
+                        "count",
+                        format!("inside the payload's eq/cmp/hash/fmt callbacks the count read {}..{} with {} owning handles", lo, hi, owners),
+                    );
+                }
+            }
+        }
         self.verify("compare")
     }
 
@@ -1660,6 +1686,18 @@ fn norm<P: Pay>(t: u64) -> u64 {
 }
 
 /// Run one history. Returns the trace on violation.
+struct ProbeData<P: Pay> {
+    arc: *const Arc<P>,
+    seen_min: std::cell::Cell<usize>,
+    seen_max: std::cell::Cell<usize>,
+}
+fn probe_count<P: Pay>(d: *const ()) {
+    let d = unsafe { &*(d as *const ProbeData<P>) };
+    let c = Arc::count(unsafe { &*d.arc });
+    d.seen_min.set(d.seen_min.get().min(c));
+    d.seen_max.set(d.seen_max.get().max(c));
+}
+
 /// Keep the first observational violation per property tag.
 pub fn soft_push(soft: &mut Vec<Viol>, props: &'static str, oracle: &'static str, msg: String) {
     if !soft.iter().any(|v| v.props == props) {
